@@ -362,6 +362,44 @@ def run_case(c):
             elif kind == "disabled":
                 if d_sec or d_ded:
                     res["v"].append(dict(w_, problem="decoder disabled but errors were counted"))
+            if kind == "single" and d_sec == 1 and rd == data[k]:
+                res["a_counted_single"] = k
+            if kind == "double" and d_ded == 1:
+                res["a_double"] = k
+        # ---- clear: counters and sticky flags go back to zero and counting restarts (the faulted words are still in the store)
+        for rnd in range(2):
+            yield ecc.clear.re.eq(1)
+            yield
+            yield ecc.clear.re.eq(0)
+            yield from wait(2)
+            after = yield counters
+            if any(after[:4]):
+                res["v"].append(dict(kind="clear-does-not-reset-status", sec_errors=after[0], ded_errors=after[1], sec_detected=after[2],
+                                     ded_detected=after[3], lane_bits=lane, round=rnd))
+                break
+            res["clears_judged"] = res.get("clears_judged", 0) + 1
+            k1, k2 = res.get("a_counted_single"), res.get("a_double")
+            if k1 is not None:
+                rd = yield from do_cmd(0, k1)
+                if state["done"]:
+                    return
+                yield from wait(4)
+                after = yield counters
+                if rd != data[k1] or after[:4] != [1, 0, 1, 0]:
+                    res["v"].append(dict(kind="status-after-clear-and-one-corrected-error", expected=[1, 0, 1, 0], got=after[:4],
+                                         data_ok=rd == data[k1], lane_bits=lane, round=rnd))
+                    break
+            if k2 is not None:
+                before = yield counters
+                yield from do_cmd(0, k2)
+                if state["done"]:
+                    return
+                yield from wait(4)
+                after = yield counters
+                if after[1] - before[1] != 1 or not after[3] or after[0] != before[0]:
+                    res["v"].append(dict(kind="status-after-clear-and-one-uncorrectable-error", before=before[:4], after=after[:4],
+                                         lane_bits=lane, round=rnd))
+                    break
         state["done"] = True
 
     cycles, reason = run_sim(dut, mem_procs + [main()], lambda: state["done"], 400000, wall_limit=2400)
@@ -383,7 +421,7 @@ def run_case(c):
         if len(pos) > 1:
             v.append(dict(kind="uncounted-position-differs-between-lanes", positions=sorted(pos)))
     st = dict(reads_or_writes_judged=res["judged"], cycles=cycles, code_bits=code_bits, slot_bits=slot, lanes=BC,
-              consecutive_faulted_beats=res.get("consecutive_beats", 0), single_positions_flipped=len(res["positions"]), uncounted_single_positions=sorted(set(p for ps in res["sec_exceptions"].values() for p in ps)))
+              consecutive_faulted_beats=res.get("consecutive_beats", 0), clears_judged=res.get("clears_judged", 0), single_positions_flipped=len(res["positions"]), uncounted_single_positions=sorted(set(p for ps in res["sec_exceptions"].values() for p in ps)))
     if cls == "single":
         nontrivial = len(res["positions"]) >= code_bits * len(c.get("lanes_subset") or range(BC))
     else:
